@@ -80,7 +80,7 @@ def meta_with_include(rng, include=None):
 # ---------------------------------------------------------------------------
 def polygon_vertices(rng, L, cx, cy, kind=None):
     kind = kind or rng.choice(['convex', 'star', 'star', 'random', 'bowtie', 'pentagram', 'repeat', 'collinear',
-                               'rectilinear', 'triangle', 'keyhole', 'hourglass', 'balanced', 'parallelogram', 'flat'])
+                               'rectilinear', 'triangle', 'keyhole', 'hourglass', 'balanced', 'parallelogram', 'flat', 'diagonal-ends'])
     if kind == 'triangle':
         n = 3
         pts = [(rng.uniform(-1, 1), rng.uniform(-1, 1)) for _ in range(n)]
@@ -150,6 +150,16 @@ def polygon_vertices(rng, L, cx, cy, kind=None):
         if abs(cx) < 1e9 and abs(cy) < 1e9:
             off = rng.choice([0.5, 0.5, -0.5, 0.7, 0.2, 0.0])
             cx, cy = (float(round(cx)) + off, cy) if vertical else (cx, float(round(cy)) + off)
+    elif kind == 'diagonal-ends':
+        # first and last vertex both exactly on the line y = x (x_first = y_first, x_last = y_last), the last one an extreme of the shape
+        n = rng.randint(4, 9)
+        angs = sorted(rng.uniform(0.3, 2 * math.pi - 0.3) for _ in range(n - 2))
+        p, q = rng.uniform(-0.6, 0.2), 1.0
+        pts = [(p, p)] + [(0.8 * math.cos(t + math.pi / 4) * rng.uniform(0.5, 1), 0.8 * math.sin(t + math.pi / 4) * rng.uniform(0.5, 1)) for t in angs] + [(q, q)]
+        if abs(cx) < 1e9 and abs(cy) < 1e9:
+            cy = cx
+        xs = [cx + L * 0.5 * pt[0] for pt in pts]
+        return xs[:1] + xs[1:-1] + xs[-1:], [xs[0]] + [cy + L * 0.5 * pt[1] for pt in pts[1:-1]] + [xs[-1]]
     elif kind == 'collinear':
         pts = [(-1, -1), (0, -1), (0.5, -1), (1, -1), (1, 0), (1, 1), (0, 1), (-1, 1), (-1, 0.25)]
         pts = pts[:rng.randint(5, len(pts))]
